@@ -27,6 +27,8 @@ pub enum Op {
     Prepare(String, usize),
     RCreate(usize, String),
     RDestroy(usize),
+    /// `using_store(id, |s| s.clear())`: the store of an id emptied through the top-level API
+    RClear(usize),
     RMarkers(usize, String, String),
     RLimit(usize, usize),
     RAdd(usize, usize, usize, String),
@@ -63,6 +65,7 @@ impl Op {
             Op::Prepare(q, n) => format!("prepare {} {}", enc_str(q), n),
             Op::RCreate(id, l) => format!("rcreate {} {}", id, l),
             Op::RDestroy(id) => format!("rdestroy {}", id),
+            Op::RClear(id) => format!("rclear {}", id),
             Op::RMarkers(id, l, r) => format!("rmarkers {} {} {}", id, enc_str(l), enc_str(r)),
             Op::RLimit(id, n) => format!("rlimit {} {}", id, n),
             Op::RAdd(id, rid, rating, t) => format!("radd {} {} {} {}", id, rid, rating, enc_str(t)),
@@ -221,6 +224,7 @@ pub fn exec_op(st: &mut RealState, op: &Op) -> Obs {
             }
             Op::RCreate(id, l) => { core::create_store(*id, make_lang(l)); st.live_ids.push(*id); Obs::Line("ok".to_string()) }
             Op::RDestroy(id) => { core::destroy_store(*id); st.live_ids.retain(|x| x != id); Obs::Line("ok".to_string()) }
+            Op::RClear(id) => { core::using_store(*id, |s| s.clear()); Obs::Line("ok".to_string()) }
             Op::RMarkers(id, l, r) => { core::highlight_with(*id, (l, r)); Obs::Line("ok".to_string()) }
             Op::RLimit(id, n) => { core::set_limit(*id, *n); Obs::Line("ok".to_string()) }
             Op::RAdd(id, rid, rating, t) => { core::add_record(*id, *rid, t, *rating); Obs::Line("ok".to_string()) }
@@ -370,7 +374,7 @@ impl Op {
             "splitty" => Op::SplitTy(n(1) as u64, n(2), n(3)),
             "new" => Op::New, "add" => Op::Add(n(1), n(2), s(3)), "clear" => Op::Clear, "limit" => Op::Limit(n(1)),
             "markers" => Op::Markers(s(1), s(2)), "search" => Op::Search(s(1)), "prepare" => Op::Prepare(s(1), n(2)),
-            "rcreate" => Op::RCreate(n(1), p.get(2)?.to_string()), "rdestroy" => Op::RDestroy(n(1)),
+            "rcreate" => Op::RCreate(n(1), p.get(2)?.to_string()), "rdestroy" => Op::RDestroy(n(1)), "rclear" => Op::RClear(n(1)),
             "rmarkers" => Op::RMarkers(n(1), s(2), s(3)), "rlimit" => Op::RLimit(n(1), n(2)),
             "radd" => Op::RAdd(n(1), n(2), n(3), s(4)), "rsearch" => Op::RSearch(n(1), s(2)), "rresults" => Op::RResults(n(1)),
             _ => return None,
